@@ -325,6 +325,67 @@ def st_structures(max_abstract: int = 8, max_stem: int = 6, max_gap: int = 5, mi
     return build()
 
 
+def st_large_structures(min_pairs: int = 30, max_pairs: int = 120, max_cross: int = 4, max_stem: int = 15, max_gap: int = 30):
+    """long structures: a random non-crossing arrangement of many stems (Dyck word drawn step by step, repaired by
+    construction) plus a few extra chords that cross it, stems of 1..max_stem pairs, unpaired runs of 0..max_gap"""
+    from hypothesis import strategies as st
+
+    @st.composite
+    def build(draw):
+        m = draw(st.integers(min_pairs, max_pairs))
+        bits = draw(st.lists(st.booleans(), min_size=2 * m, max_size=2 * m))
+        stack, chords, e = [], [], 0
+        for step in range(2 * m):
+            remaining = 2 * m - step
+            if not stack:
+                op = True
+            elif len(stack) == remaining:
+                op = False
+            else:
+                op = bits[step]
+            if op:
+                stack.append(e)
+            else:
+                chords.append((stack.pop(), e))
+            e += 1
+        # extra crossing chords: two new endpoints at drawn places between the existing ones (fractional positions,
+        # ranked afterwards)
+        fl = [(float(x), float(y)) for x, y in chords]
+        for k in range(draw(st.integers(0, max_cross))):
+            pa = draw(st.integers(0, 2 * m)) - 0.5 + 0.01 * (k + 1)
+            pb = draw(st.integers(0, 2 * m)) - 0.5 + 0.013 * (k + 1) + 0.2
+            if pa == pb:
+                continue
+            fl.append((min(pa, pb), max(pa, pb)))
+        ends = sorted({e for ch in fl for e in ch})
+        rank = {e: r for r, e in enumerate(ends)}
+        chords = [(rank[x], rank[y]) for x, y in fl]
+        chords = sorted(chords)
+        lens = [draw(st.integers(1, max_stem)) if draw(st.integers(0, 3)) else draw(st.integers(1, 3)) for _ in chords]
+        gap_s = st.one_of(st.sampled_from([0, 0, 1, 2, 3]), st.integers(0, max_gap))
+        owner = {}
+        for t, (a, b) in enumerate(chords):
+            owner[a] = t
+            owner[b] = t
+        if len(owner) != 2 * len(chords):
+            raise ValueError("large structure generator produced clashing endpoints")
+        pos = 1 + draw(gap_s)
+        start = {}
+        for e in range(2 * len(chords)):
+            start[e] = pos
+            pos += lens[owner[e]] + draw(gap_s)
+        n = pos - 1
+        pairs = []
+        for t, (a, b) in enumerate(chords):
+            for d in range(lens[t]):
+                pairs.append((start[a] + d, start[b] + lens[t] - 1 - d))
+        letters = draw(st.sampled_from(["ACGU", "ACGUT", "N", "acgu", SEQ_LETTERS]))
+        seq = "".join(letters[(k * 7 + k // 3) % len(letters)] for k in range(n))
+        return (seq, tuple(sorted(pairs)))
+
+    return build()
+
+
 def ladder(k: int, stem_len: int = 1, gap: int = 0) -> Tuple[str, tuple]:
     """k mutually crossing stems: needs exactly k levels"""
     n_half = k * (stem_len + gap)
